@@ -19,7 +19,7 @@ worker() {
       for d in seeded/$P-m*/; do
         id=$(basename $d)
         ( cd $WT && git checkout -q -- . && git apply /verif/seeded/$id/patch.diff ) || { echo "$id cannot-apply" >> $OUT; continue; }
-        VERIF_REPO=$WT ./check $P --tier quick > /tmp/sw_$id.log 2>&1
+        VERIF_EVIDENCE_DIR=/tmp/sw_evidence_$k VERIF_REPO=$WT ./check $P --tier quick > /tmp/sw_$id.log 2>&1
         echo "$id exit=$? violations=$(grep -c VIOLATION /tmp/sw_$id.log)" >> $OUT
       done
     fi
